@@ -244,7 +244,14 @@ func checkC14(c *Ctx) {
 				}
 				switch x := v.(type) {
 				case *ssa.Parameter:
-					return x.Name() == "key"
+					// the key is the first parameter of the value type (HashSet(key, val),
+					// HashDelete(key), HashGetDefault(env, key, default)), whatever it is called
+					for _, p := range x.Parent().Params {
+						if nm, ok := p.Type().(*types.Named); ok && nm.Obj().Name() == "Sexp" {
+							return p == x
+						}
+					}
+					return false
 				case *ssa.Phi: // key may be rewritten (single-element array key)
 					for _, e := range x.Edges {
 						if fromKey(e, depth+1) {
